@@ -23,6 +23,7 @@ import (
 
 	sdk "github.com/cosmos/cosmos-sdk/types"
 	authtypes "github.com/cosmos/cosmos-sdk/x/auth/types"
+	banktypes "github.com/cosmos/cosmos-sdk/x/bank/types"
 	stakingtypes "github.com/cosmos/cosmos-sdk/x/staking/types"
 
 	band "github.com/bandprotocol/chain/v3/app"
@@ -70,8 +71,13 @@ type c16Op struct {
 }
 
 type c16Case struct {
-	NAcc    int     `json:"nacc"`
-	NVal    int     `json:"nval"`
+	NAcc int `json:"nacc"`
+	NVal int `json:"nval"`
+	// NB: the last genesis validator is outside the active set (staking MaxValidators = NVal-1, status Unbonded,
+	// 2 uband*10^6 self-delegated); it is bonded later if delegations lift it above another validator, which then
+	// starts unbonding. Shares stay at rate 1 (nobody is slashed) and delegations to validators of every status
+	// count towards the total power.
+	NB      bool    `json:"nb,omitempty"`
 	Allowed int     `json:"allowed"`
 	Ops     []c16Op `json:"ops"`
 }
@@ -95,7 +101,10 @@ func c16GenAmt(rt *rapid.T, label string, denom int) string {
 var (
 	c16WithdrawModes = []string{"below", "below", "below", "below", "tolock", "tolock", "tolock", "above", "above", "all", "all", "all", "allplus1", "one", "one", "raw", "raw", "raw", "zero"}
 	c16RedelModes    = []string{"all", "all", "all", "below", "below", "tolock", "tolock", "raw", "raw", "raw", "one"}
-	c16LockModes     = []string{"total", "total", "total", "total", "total", "totalplus1", "totalplus1", "totalminus1", "totalminus1", "half", "half", "half", "half", "zero", "raw", "raw", "raw", "u63", "maxu64", "over64", "same", "old", "old", "oldminus1", "oldplus1", "mid"}
+	// lock = total power - the delegation to validator V + {0,+1,-1}: removing that WHOLE delegation afterwards leaves
+	// exactly the lock / one below / one above
+	c16ExDelModes = []string{"exdelplus1", "exdelplus1", "exdelplus1", "exdel", "exdel", "exdelminus1"}
+	c16LockModes  = []string{"total", "total", "total", "total", "total", "totalplus1", "totalplus1", "totalminus1", "totalminus1", "half", "half", "half", "half", "zero", "raw", "raw", "raw", "u63", "maxu64", "over64", "same", "old", "old", "oldminus1", "oldplus1", "mid"}
 	// lock updates aimed at (current total power, old lock of the same vault] after the power fell below that lock
 	c16RelockModes    = []string{"old", "old", "oldminus1", "oldminus1", "totalplus1", "totalplus1", "mid", "mid", "oldplus1", "total"}
 	c16DelegateModes  = []string{"raw", "raw", "raw", "raw", "raw", "raw", "raw", "raw", "one", "balplus1", "zero", "reach", "reachminus1"}
@@ -110,6 +119,7 @@ func genC16(rt *rapid.T) c16Case {
 		NVal:    rapid.IntRange(2, 3).Draw(rt, "nval"),
 		Allowed: gen.Pick(rt, "allowed", 3, 6, 1, 1),
 	}
+	c.NB = gen.Chance(rt, "nonbonded", 1, 2)
 	acct := func() int { return rapid.IntRange(0, c.NAcc-1).Draw(rt, "acct") } // biased: concentrates on few accounts
 	val := func(l string) int { return gen.Uniform(rt, l, c.NVal) }
 	vault := func() int { return gen.Pick(rt, "vault", 4, 2, 3, 2) }
@@ -171,7 +181,7 @@ func genC16(rt *rapid.T) c16Case {
 	nops := rapid.IntRange(12, 50).Draw(rt, "nops")
 	for i := 0; i < nops; i++ {
 		a := acct()
-		switch gen.Pick(rt, "opw", 10, 16, 9, 16, 8, 16, 3, 1, 4, 9, 6, 3) {
+		switch gen.Pick(rt, "opw", 10, 16, 9, 16, 8, 16, 3, 1, 4, 9, 6, 3, 6) {
 		case 0:
 			c.Ops = append(c.Ops, stake(a))
 		case 1:
@@ -190,6 +200,36 @@ func genC16(rt *rapid.T) c16Case {
 			c.Ops = append(c.Ops, c16Op{K: "mkvault", Vault: vault()})
 		case 8:
 			c.Ops = append(c.Ops, c16Op{K: "params", Set: gen.Pick(rt, "pset", 3, 5, 1, 2)})
+		case 12:
+			// scenario: removal of a WHOLE delegation (the staking module deletes the record and asks the
+			// BeforeDelegationRemoved hook instead of AfterDelegationModified) at the lock boundary, from the validator
+			// outside the active set when there is one, otherwise (and sometimes anyway) from any validator
+			vv := val("wd-v")
+			if c.NB && gen.Chance(rt, "wd-nb", 4, 5) {
+				vv = c.NVal - 1
+			}
+			d := delegate(a)
+			d.V, d.Mode = vv, "raw"
+			c.Ops = append(c.Ops, d)
+			if gen.Chance(rt, "wd-d2", 1, 2) { // power that remains elsewhere
+				d2 := delegate(a)
+				d2.V, d2.Mode = (vv+1)%c.NVal, "raw"
+				c.Ops = append(c.Ops, d2)
+			}
+			l := setlock(a, vault(), gen.OneOf(rt, "wd-lm", c16ExDelModes...))
+			l.V = vv
+			c.Ops = append(c.Ops, l)
+			if gen.Chance(rt, "wd-reimp", 1, 6) {
+				c.Ops = append(c.Ops, c16Op{K: "reimport"})
+			}
+			if gen.Chance(rt, "wd-red", 1, 4) {
+				r := redelegate(a)
+				r.V, r.W, r.Mode = vv, (vv+1)%c.NVal, "all"
+				c.Ops = append(c.Ops, r)
+			}
+			u := undelegate(a, "all")
+			u.V = vv
+			c.Ops = append(c.Ops, u)
 		case 11:
 			// genesis export -> new application instance initialised from the exported document
 			c.Ops = append(c.Ops, c16Op{K: "reimport"})
@@ -327,16 +367,17 @@ type c16Obs struct {
 	bal     []sdk.Coins
 	modBal  sdk.Coins
 	allowed []string
-	rate1   string // non-empty: the rate-1 / bonded assumption of the property does not hold
-	bad     string // undecodable store content
+	status  []stakingtypes.BondStatus // per validator
+	rate1   string                    // non-empty: the rate-1 / bonded assumption of the property does not hold
+	bad     string                    // undecodable store content
 }
 
 func c16IndexEntry(addr []byte, power uint64, vault, value string) string {
 	return fmt.Sprintf("%x/%020d/%q=%q", addr, power, vault, value)
 }
 
-func c16Observe(ch *sim.Chain) *c16Obs {
-	o := &c16Obs{vaults: map[string]bool{}, stakes: map[string]sdk.Coins{}}
+func c16Observe(ch *sim.Chain, allowNonBonded bool) *c16Obs {
+	o := &c16Obs{vaults: map[string]bool{}, stakes: map[string]sdk.Coins{}, status: make([]stakingtypes.BondStatus, len(ch.Vals))}
 	ctx := ch.Ctx()
 	cdc := ch.App.AppCodec()
 	it := ctx.KVStore(ch.App.GetKey(restaketypes.StoreKey)).Iterator(nil, nil)
@@ -397,7 +438,8 @@ func c16Observe(ch *sim.Chain) *c16Obs {
 			o.rate1 = fmt.Sprintf("validator %d missing: %v", j, err)
 			continue
 		}
-		if !vv.IsBonded() || !vv.DelegatorShares.IsInteger() || !vv.DelegatorShares.TruncateInt().Equal(vv.Tokens) {
+		o.status[j] = vv.Status
+		if (!vv.IsBonded() && !allowNonBonded) || vv.Jailed || !vv.DelegatorShares.IsInteger() || !vv.DelegatorShares.TruncateInt().Equal(vv.Tokens) {
 			o.rate1 = fmt.Sprintf("validator %d status=%v tokens=%s shares=%s", j, vv.Status, vv.Tokens, vv.DelegatorShares)
 		}
 		o.snap = append(o.snap, fmt.Sprintf("val %d tokens=%s shares=%s status=%v", j, vv.Tokens, vv.DelegatorShares, vv.Status))
@@ -524,6 +566,9 @@ func runC16(c c16Case) *pbt.Verdict {
 	for i := range vals {
 		vals[i] = sim.ValSpec{Tokens: 30_000_000}
 	}
+	if c.NB {
+		vals[nval-1] = sim.ValSpec{Tokens: 2_000_000}
+	}
 	rp := restaketypes.NewParams(append([]string{}, allowed0...))
 	ch, err := sim.New(sim.Config{
 		NumAccounts: nacc, Validators: vals, Restake: &rp, MintOff: true,
@@ -533,6 +578,23 @@ func runC16(c c16Case) *pbt.Verdict {
 			var sg stakingtypes.GenesisState
 			app.AppCodec().MustUnmarshalJSON(gs[stakingtypes.ModuleName], &sg)
 			sg.Params.UnbondingTime = 21 * 24 * time.Hour
+			if c.NB {
+				// the last validator starts outside the active set: status Unbonded, its tokens in the not-bonded pool
+				sg.Params.MaxValidators = uint32(nval - 1)
+				last := len(sg.Validators) - 1
+				sg.Validators[last].Status = stakingtypes.Unbonded
+				moved := sdk.NewCoins(sdk.NewCoin("uband", sg.Validators[last].Tokens))
+				var bg banktypes.GenesisState
+				app.AppCodec().MustUnmarshalJSON(gs[banktypes.ModuleName], &bg)
+				bondedPool := authtypes.NewModuleAddress(stakingtypes.BondedPoolName).String()
+				for k := range bg.Balances {
+					if bg.Balances[k].Address == bondedPool {
+						bg.Balances[k].Coins = bg.Balances[k].Coins.Sub(moved...)
+					}
+				}
+				bg.Balances = append(bg.Balances, banktypes.Balance{Address: authtypes.NewModuleAddress(stakingtypes.NotBondedPoolName).String(), Coins: moved})
+				gs[banktypes.ModuleName] = app.AppCodec().MustMarshalJSON(&bg)
+			}
 			gs[stakingtypes.ModuleName] = app.AppCodec().MustMarshalJSON(&sg)
 		},
 	}, 0)
@@ -662,7 +724,33 @@ func runC16(c c16Case) *pbt.Verdict {
 			v.Failf(syncSig, "%s: %d stake records, %d belong to known accounts", where, o.stakeN, nstakes)
 			return false
 		}
+		// (5) the model's power formula is the one the chain uses: delegations to validators of EVERY status (rate 1)
+		// plus staked coins of the currently allowed denoms
+		for a := 0; a < nacc; a++ {
+			got, err := ch.App.RestakeKeeper.GetTotalPower(ch.Ctx(), ch.Users[a].Addr)
+			if err != nil || got.IsNil() || got.BigInt().Cmp(m.power(a)) != 0 {
+				v.Failf("C16/power-model", "%s: account %d total power on chain %v (err %v), model %s", where, a, got, err, m.power(a))
+				return false
+			}
+		}
 		// statistics on the reached state
+		for j := 0; j < nval && j < len(o.status); j++ {
+			if o.status[j] == stakingtypes.Bonded {
+				continue
+			}
+			class("validator-not-bonded")
+			if j != nval-1 || !c.NB {
+				class("validator-left-active-set-mid-history")
+			}
+			for a := 0; a < nacc; a++ {
+				if m.del[a][j].Sign() > 0 {
+					class("delegation-to-nonbonded-validator")
+				}
+			}
+		}
+		if c.NB && nval-1 < len(o.status) && o.status[nval-1] == stakingtypes.Bonded {
+			class("nonbonded-validator-became-bonded")
+		}
 		for a := 0; a < nacc; a++ {
 			var seen []*big.Int
 			for _, key := range c16Vaults {
@@ -685,14 +773,14 @@ func runC16(c c16Case) *pbt.Verdict {
 		return true
 	}
 
-	cur := c16Observe(ch)
+	cur := c16Observe(ch, c.NB)
 	if !checkState(cur, "genesis") {
 		return v
 	}
 
 	// finish compares snapshots for a rejected op, re-reads the state and runs the state checks
 	finish := func(where string, ok bool) bool {
-		post := c16Observe(ch)
+		post := c16Observe(ch, c.NB)
 		if !ok && strings.Join(cur.snap, "\n") != strings.Join(post.snap, "\n") {
 			v.Failf("C16/rejected-op-changed-state", "%s was rejected but the state changed: %s", where, c16SnapDiff(cur.snap, post.snap))
 			return false
@@ -1013,9 +1101,19 @@ func runC16(c c16Case) *pbt.Verdict {
 			case "undelegate":
 				j := src.val
 				minPower := c16Sub(p, x)
+				// status of the validator in the committed state = its status while the tx runs (the validator set
+				// changes in end blockers only)
+				st := stakingtypes.Bonded
+				if j < len(cur.status) {
+					st = cur.status[j]
+				}
+				where = fmt.Sprintf("%s from validator %d (%s)", where, j, st)
 				out, alive := runTx(u, stakingtypes.NewMsgUndelegate(u.Addr.String(), ch.Vals[j].Val.String(), c16Coin("uband", x)))
 				if !alive {
 					return v
+				}
+				if full && st != stakingtypes.Bonded {
+					v.Count("whole_delegation_removal_from_nonbonded_attempted", 1)
 				}
 				if out.ok {
 					if x.Cmp(have) > 0 {
@@ -1023,8 +1121,25 @@ func runC16(c c16Case) *pbt.Verdict {
 						return v
 					}
 					m.del[a][j].Sub(m.del[a][j], x)
+					// (an undelegation always waits the full unbonding time, whatever the validator's status: the balance
+					// does not move during a history)
 					if full {
 						class("full-undelegation-ok")
+						if st != stakingtypes.Bonded {
+							class("whole-delegation-removed-from-nonbonded-validator")
+							if l := m.maxLock(a, true); l != nil && l.Sign() > 0 && minPower.Cmp(l) == 0 {
+								class("whole-delegation-removed-from-nonbonded-validator-leaving-exactly-the-lock")
+							}
+						}
+					}
+				} else if l := m.maxLock(a, true); full && out.lockRej && l != nil && minPower.Cmp(l) < 0 {
+					if st != stakingtypes.Bonded {
+						class("whole-delegation-removal-from-nonbonded-validator-rejected-below-lock")
+						if c16Add(minPower, c16One).Cmp(l) == 0 {
+							class("whole-delegation-removal-from-nonbonded-validator-rejected-at-lock-1")
+						}
+					} else if c16Add(minPower, c16One).Cmp(l) == 0 {
+						class("whole-delegation-removal-from-bonded-validator-rejected-at-lock-1")
 					}
 				}
 				if !judgeWithdraw("undelegate", where, a, out, minPower, minPower, full) {
@@ -1051,6 +1166,9 @@ func runC16(c c16Case) *pbt.Verdict {
 					class("redelegate-ok")
 					if full {
 						class("full-redelegation-ok")
+						if j < len(cur.status) && cur.status[j] != stakingtypes.Bonded {
+							class("whole-delegation-redelegated-from-nonbonded-validator")
+						}
 					}
 				}
 				// a redelegation between bonded validators leaves the total power unchanged
@@ -1124,6 +1242,14 @@ func runC16(c c16Case) *pbt.Verdict {
 				x = new(big.Int).Set(c16MaxU64)
 			case "over64":
 				x = new(big.Int).Set(c16Two64)
+			case "exdel", "exdelplus1", "exdelminus1":
+				// total power without the whole delegation to validator V (+-1)
+				x = c16Sub(p, m.del[a][c16Mod(op.V, nval)])
+				if op.Mode == "exdelplus1" {
+					x.Add(x, c16One)
+				} else if op.Mode == "exdelminus1" {
+					x.Sub(x, c16One)
+				}
 			case "old", "oldminus1", "oldplus1", "mid":
 				// relative to this vault's existing lock (falls back to the total power when there is none)
 				x = new(big.Int).Set(p)
